@@ -27,7 +27,7 @@ pub fn def() -> PropDef {
             "AddAssign_Less", "AddAssign_Greater", "AddAssign_Equal", "Norm_Zero", "Norm_Trim", "Hash_Zero", "Hash_Trim", "Hash_AppendZeros",
             "Eq_WordLoop", "Eq_DigitWise", "Cmp_DigitWise", "WithScale_Up",
         ],
-        rule: "seeded straight-line programs of 1..40 steps on one accumulator over a pool of operands (random decimals, zeros carrying a scale, ones written 1.00, powers of ten, value-equal twins of the current accumulator, earlier results); each step picks an operation (add, sub, mul, neg, abs, double, half, square, upward with_scale, normalized, clone through a reference, sum of a slice, add/sub/mul with a primitive - 0, +-1, +-2 and every width's MIN / MAX and the first value past each narrower type up to u128::MAX - or a big integer) and one of its overload / compound-assignment forms at random; the model evaluates the same program exactly and after EVERY step the accumulator must be value-equal to the model and ==, cmp and the Hash byte stream of the accumulator against a fresh model-built representation must say equal / Equal / identical; failing histories are minimised (steps dropped while the failure persists). distinct = distinct programs; non-trivial = programs with at least 3 steps whose final value is non-zero",
+        rule: "seeded straight-line programs of 1..40 steps on one accumulator over a pool of operands (random decimals, zeros carrying a scale, ones written 1.00, powers of ten, value-equal twins of the current accumulator, earlier results); each step picks an operation (add, sub, mul, neg, abs, double, half, square, upward with_scale, normalized, clone through a reference, sum of a slice, add/sub/mul with a primitive - 0, +-1, +-2 and every width's MIN / MAX and the first value past each narrower type up to u128::MAX - or a big integer) and one of its overload / compound-assignment forms at random; the model evaluates the same program exactly and after EVERY step the accumulator must be value-equal to the model and ==, cmp and the Hash byte stream of the accumulator against a fresh model-built representation must say equal / Equal / identical, also through reference views of the accumulator (plain, abs(), negated); failing histories are minimised (steps dropped while the failure persists). distinct = distinct programs; non-trivial = programs with at least 3 steps whose final value is non-zero",
     }
 }
 
@@ -241,13 +241,24 @@ fn run_program_inner(init: &Dec, steps: &[Step], evals: &mut u64, digest: &mut V
         }
         // comparisons and hashes along the way, against fresh model-built representations
         let fresh = [nm.bd(), model::normalize(&nm).bd(), Dec::new(&nm.n * pow10(3), nm.s + 3).bd()];
-        *evals += 9;
+        *evals += 15;
         let chk = catch_unwind(AssertUnwindSafe(|| {
             let hb = hash_bytes(&next);
             for f in fresh.iter() {
                 if !(next == *f) || !(*f == next) { return Some(("step/eq-disagrees", format!("accumulator {} == fresh {} is false", got.tok(), Dec::of(f).tok()))); }
                 if next.cmp(f) != Ordering::Equal || f.cmp(&next) != Ordering::Equal { return Some(("step/cmp-disagrees", format!("accumulator {} cmp fresh {} is not Equal", got.tok(), Dec::of(f).tok()))); }
                 if hash_bytes(f) != hb { return Some(("step/hash-disagrees", format!("accumulator {} and the equal value {} feed different data to a Hasher", got.tok(), Dec::of(f).tok()))); }
+            }
+            // the same through reference views of the accumulator, plain and transformed (|x|, -x)
+            {
+                let r = next.to_ref();
+                let fr = fresh[2].to_ref();
+                if !(r == fr) || r.cmp(&fr) != Ordering::Equal { return Some(("step/ref-view-disagrees", format!("reference view of the accumulator {} vs the equal value {}: == {} cmp {:?}", got.tok(), Dec::of(&fresh[2]).tok(), r == fr, r.cmp(&fr)))); }
+                let absf = BigDecimal::new(nm.n.abs() * pow10(2), nm.s + 2);
+                let negf = BigDecimal::new(-&nm.n, nm.s);
+                let (ra, rn) = (r.abs(), -r);
+                if !(ra == absf.to_ref()) || ra.cmp(&absf.to_ref()) != Ordering::Equal { return Some(("step/ref-view-disagrees", format!("|accumulator| as a reference view ({}) vs the exact {}: == {} cmp {:?}", got.tok(), Dec::of(&absf).tok(), ra == absf.to_ref(), ra.cmp(&absf.to_ref())))); }
+                if !(rn == negf.to_ref()) || rn.cmp(&negf.to_ref()) != Ordering::Equal { return Some(("step/ref-view-disagrees", format!("-accumulator as a reference view ({}) vs the exact {}: == {} cmp {:?}", got.tok(), Dec::of(&negf).tok(), rn == negf.to_ref(), rn.cmp(&negf.to_ref())))); }
             }
             // unequal neighbours written with more digits must not compare equal (scaled comparison paths)
             for (extra, tail) in [(1i64, 5i32), (1, 1), (3, 1), (25, 1)] {
